@@ -3,7 +3,7 @@ Model/TableDom.lean — the harness-defined *table domain* (DESIGN §3.4), mirro
 harness/src/table.rs: keys and values are small naturals, prerequisites and offered values
 come from tables, predicates are a small fixed family.
 -/
-import PmVerif.Model.Constraint
+import PmVerif.Model.Tree
 namespace Pm
 
 abbrev TScheme := List (List Nat)
@@ -39,12 +39,14 @@ inductive TPred where
   | const (c : Nat)
   | true_ (n : Nat)
   | lt
+  | notIn (n : Nat)
   deriving Repr, DecidableEq
 
 def TPred.arity : TPred → Nat
   | .eq | .ne | .lt => 2
   | .const _ => 1
   | .true_ n => n
+  | .notIn n => n + 1
 
 /-- `TPred::check`; `none` = the `panic!("tpred arity")` branch. -/
 def TPred.check : TPred → THost → List Nat → Option Bool
@@ -53,6 +55,79 @@ def TPred.check : TPred → THost → List Nat → Option Bool
   | .lt, _, [a, b] => some (decide (a < b))
   | .const c, _, [a] => some (a == c)
   | .true_ n, _, vs => if vs.length = n then some true else none
+  | .notIn n, _, v :: vs => if vs.length = n then some (!vs.contains v) else none
   | _, _, _ => none
+
+end Pm
+
+/-! ### Constraint-tree strategies of the table domain (mirror of harness/src/table.rs) -/
+namespace Pm
+open CTree
+
+abbrev TCons := Constraint Nat TPred
+
+/-- Rust's derived `Ord` on `TPred`: variant index, then payload. -/
+def TPred.code : TPred → Nat × Nat
+  | .eq => (0, 0)
+  | .ne => (1, 0)
+  | .const c => (2, c)
+  | .true_ n => (3, n)
+  | .lt => (4, 0)
+  | .notIn n => (5, n)
+
+def natListLe : List Nat → List Nat → Bool
+  | [], _ => true
+  | _ :: _, [] => false
+  | a :: as, b :: bs => if a < b then true else if a = b then natListLe as bs else false
+
+/-- `tcons_key(a) <= tcons_key(b)`: (largest argument, predicate, arguments). -/
+def tconsLe (a b : TCons) : Bool :=
+  let ma := a.args.foldl max 0
+  let mb := b.args.foldl max 0
+  if ma < mb then true else if ma > mb then false
+  else
+    let ca := a.pred.code
+    let cb := b.pred.code
+    if ca.1 < cb.1 then true else if ca.1 > cb.1 then false
+    else if ca.2 < cb.2 then true else if ca.2 > cb.2 then false
+    else natListLe a.args b.args
+
+def tconsMutex (a b : TCons) : Bool :=
+  match a.pred, b.pred with
+  | .const x, .const y => x != y && a.args == b.args
+  | _, _ => false
+
+/-- Insert into a sorted duplicate-free list (a `BTreeSet`). -/
+def insertSet (x : Nat) : List Nat → List Nat
+  | [] => [x]
+  | y :: ys => if x < y then x :: y :: ys else if x = y then y :: ys else y :: insertSet x ys
+
+/-- `<TPred as ConditionedPredicate>::conditioned`. -/
+def tCond (c : TCons) (satisfied : List TCons) : Option TCons :=
+  match c.pred with
+  | .true_ _ => none
+  | .notIn _ =>
+    match c.args with
+    | [] => some c   -- unreachable for arity-correct constraints
+    | first :: others =>
+      let keys := others.foldl (fun s k => insertSet k s) []
+      let removed := satisfied.foldl (fun (ks : List Nat) s =>
+        match s.pred, s.args with
+        | .notIn _, f :: os => if f = first then ks.filter (fun k => !os.contains k) else ks
+        | _, _ => ks) keys
+      if removed.isEmpty then none
+      else some ⟨.notIn removed.length, first :: removed⟩
+  | _ => some c
+
+/-- `<TPred as ToConstraintsTree>::to_constraints_tree` under strategy `s`. -/
+def tTree (s : Nat) (cs : List TCons) (fuel : Nat) : Option (CTree TCons) :=
+  if cs.isEmpty then some CTree.new
+  else
+    let sorted := sortWithIndices tconsLe cs
+    match s with
+    | 0 => some (withChildren ((sorted.take 1).map fun ci => (ci.1, [ci.2])))
+    | 1 => some (withTransitiveMutex sorted tconsMutex)
+    | 2 => some (withPairwiseMutex sorted tconsMutex)
+    | _ => withPowerset tCond (sorted.take 4) fuel
 
 end Pm
